@@ -25,8 +25,29 @@ def _tagged_dicts(fi):
         if isinstance(n, ast.Dict):
             for k, v in zip(n.keys, n.values):
                 if k is not None and const_str(k) == "__type__" and const_str(v) is not None:
-                    out[const_str(v)] = n
+                    out[const_str(v)] = _with_later_stores(fi, n)
     return out
+
+
+def _with_later_stores(fi, d):
+    """a document started as a literal and completed entry by entry (`doc = {"__type__": ..}; doc["k"] = v; ...`): the literal
+    with those entries added"""
+    par = getattr(d, "_parent", None)
+    if not (isinstance(par, ast.Assign) and len(par.targets) == 1 and isinstance(par.targets[0], ast.Name) and par.value is d):
+        return d
+    name = par.targets[0].id
+    keys, values = list(d.keys), list(d.values)
+    for n in ast.walk(fi.node):
+        if isinstance(n, ast.Assign) and len(n.targets) == 1 and isinstance(n.targets[0], ast.Subscript) and isinstance(n.targets[0].value, ast.Name) \
+                and n.targets[0].value.id == name and const_str(n.targets[0].slice) is not None and n.lineno >= par.lineno:
+            keys.append(n.targets[0].slice)
+            values.append(n.value)
+    if len(keys) == len(d.keys):
+        return d
+    new = ast.Dict(keys=keys, values=values)
+    ast.copy_location(new, d)
+    new._parent = par
+    return new
 
 
 def _dict_keys(d):
@@ -214,6 +235,8 @@ def check_codec(chk, repo, P):
         relative = any(isinstance(n, ast.Dict) and "reference" in _dict_keys(n) for n in eh.walk())
         # integer cast
         casts = [c for c in eh.walk() if isinstance(c, ast.Call) and isinstance(c.func, ast.Attribute) and c.func.attr == "astype"]
+        if not casts and eh.func is None:
+            raise AnalysisError(f"{ewhere}: the branch for dtype kind {kind!r} is written inline without a recognisable cast; what it stores is decided by the round-trip evaluation (K8)")
         int_ok = bool(casts) and all(_is_int64(c.args[0]) for c in casts if c.args)
         chk.require(int_ok, R("K3"), ewhere,
                     f"kind {kind!r}: values are cast with an integer 64-bit dtype before tolist() (no float on the path)",
@@ -473,6 +496,11 @@ def _handler_of(repo, fi, stmts):
     calls = [n for st in stmts for n in ast.walk(st) if isinstance(n, ast.Call)]
     if len(stmts) == 1 and isinstance(stmts[0], (ast.Return, ast.Assign, ast.Expr)) and isinstance(stmts[0].value, ast.Call):
         cs = resolve_callees(repo, fi, stmts[0].value.func)
+        if len(cs) == 1 and cs[0].func is not None:
+            return Handler(fi, func=cs[0].func)
+    if len(stmts) == 1 and isinstance(stmts[0], (ast.Return, ast.Assign)) and isinstance(stmts[0].value, (ast.Name, ast.Attribute)):
+        # the branch only selects the function that is called afterwards (`encode = encode_datetime`)
+        cs = resolve_callees(repo, fi, stmts[0].value)
         if len(cs) == 1 and cs[0].func is not None:
             return Handler(fi, func=cs[0].func)
     return Handler(fi, stmts=stmts)
